@@ -1,6 +1,10 @@
 ------------------------------ MODULE ImplSqrt ------------------------------
-(* Level B: transcription of Fq::sqrt (src/fields/fp.rs:241-269) and Fq2::sqrt   *)
-(* (src/fields/fq2.rs:74-110) over a tiny prime P = 5 (mod 8), u^2 = -2.         *)
+(* Level B: transcription of Fq::sqrt (src/fields/fp.rs) and Fq2::sqrt            *)
+(* (src/fields/fq2.rs, including the zero-imaginary-part branch added by the      *)
+(* repair of finding F2) over a tiny prime P = 5 (mod 8), u^2 = -2, checked for   *)
+(* EVERY element of F_P and F_P^2 against the set of squares.  FIXED = FALSE is   *)
+(* the algorithm of the pinned commit (kept to show the model is not vacuous: TLC *)
+(* then lists exactly the (P-1)/2 elements of F_P on which it was incomplete).    *)
 EXTENDS Naturals, Sequences, TLC, FiniteSets
 CONSTANT P, FIXED          \* FIXED = TRUE models the repaired y = 0 branch
 ASSUME P % 8 = 5
